@@ -71,7 +71,9 @@ Inductive act :=
 | ADeliver (i : nat) (dp1 : bool)              (* in-flight broadcast i reaches the connection *)
 | ALose (i : nat)                              (* ... or never does *)
 | ARevoke (k : key) (others : bool)            (* SharedPollRevokeKeys matching the connection *)
-| AEpochFlip.                                  (* publisher epoch change *)
+| AEpochFlip                                   (* publisher epoch change *)
+| APollNone (i : nat).                         (* request i ends without an item for its key: the call failed, or the
+                                                  backend has nothing newer than the version in the request *)
 
 Fixpoint remove_nth {A : Type} (i : nat) (l : list A) : list A :=
   match i, l with
@@ -238,6 +240,8 @@ Section Step.
             (* the unsubscribed connections untrack everything: entries without subscribers are dropped *)
             (mkSt (fun _ => None) (s_polls s) (s_bc s) (fun _ => None) false (fun _ => None) [], [PUnsub])
         end
+    | APollNone i =>
+        (mkSt (s_ent s) (remove_nth i (s_polls s)) (s_bc s) (s_conn s) (s_sub s) (s_held s) (s_keys s), [])
     end.
 
   Fixpoint run (s : st) (l : list act) : st * list (list push) :=
